@@ -1,6 +1,7 @@
 import Drv.Util
 import Drv.ParMap
 import Drv.Names
+import Drv.Key
 /-! JSON-lines driver over the executable model: one request per line in, one reply per line out. -/
 open Lean
 
@@ -9,6 +10,7 @@ def dispatch (j : Json) : Drv.R Json := do
   match m with
   | "parmap" => Drv.ParMap.handle j
   | "names" => Drv.Names.handle j
+  | "key" => Drv.Key.handle j
   | _ => throw "bad_op"
 
 partial def loop (h : IO.FS.Stream) (out : IO.FS.Stream) : IO Unit := do
